@@ -48,7 +48,7 @@ class C13(TraceCheck):
     rule = ("straight-line programs over a pool seeded with 3 FmtStr values (multi-run, empty run, newline), operations: "
             "+ and += , str+, +str, * (counts -3..2), slicing, splice, insert, append, join, copy_with_new_atts, new_with_atts_removed, copy, fmtstr() "
             "re-wrapping, split, splitlines, ljust/rjust, copy_with_new_str, width_aware_slice, width_aware_splitlines, "
-            "delegated upper/strip, linesplit; observations (str, len, s, width, repr through the object vs rebuilt from fresh "
+            "delegated upper/strip, linesplit, == / dict lookup between a value and its raw-escape twin; observations (str, len, s, width, repr through the object vs rebuilt from fresh "
             "runs) and in-place edit attempts interleaved at random positions. Programs come from TLC (Pool.tla: exhaustive "
             "to depth 2 in BFS, simulation to depth 12). After every step the run lists of all live values are recorded "
             "without touching memos. distinct_nontrivial = distinct (operation, operand alias pattern, caches warm?) steps")
@@ -95,6 +95,9 @@ class C13(TraceCheck):
                         E("ljust", 5), E("split", 5), E("upper", 5)):
                 progs.append([mk, use, E("observe", 5)])
                 progs.append([mk, E("copy", 5), use, E("observe", 5), E("observe", 6)])
+        for a in (1, 2, 3, 4):
+            for n in (0, 1, 2):
+                progs.append([E("eqraw", a, a, n), E("observe", a)])
         return progs
 
     def run_history(self, hist):
@@ -193,6 +196,21 @@ class C13(TraceCheck):
                         interleaved = True
                     else:
                         side = list(fa.width_aware_splitlines(2 + n % 3))
+                elif op == "eqraw":
+                    # two values with the same terminal string but different text: one keeps a plain str operand that
+                    # carries an escape sequence verbatim, the other is really formatted; one of them (or none, or both)
+                    # is looked at, then they are compared and used as dictionary keys
+                    raw = fa + "\x1b[31mq\x1b[39m"
+                    twin = fa + fmtstr("q", "red")
+                    for j, x in enumerate((raw, twin)):
+                        if (n + j) % 3 == 0:
+                            x.s, len(x)
+                            try:
+                                x.width
+                            except Exception:  # noqa
+                                pass
+                    raw == twin, twin == raw, {raw: 1}.get(twin), twin in {raw}
+                    side = [raw, twin]
                 elif op == "upper":
                     side = [fa.upper()]
                 elif op == "strip":
